@@ -118,3 +118,134 @@ Definition eval_expr_impl (nilsafe : bool) (fuel : nat) (n : node) : outcome val
       end
   | o => o
   end.
+
+(* ------------------------------------------------------------------ *)
+(* 4. An INSTRUMENT for speaking about the call depth a run reaches (not a model
+   of any Go code): the walker that refuses to walk a node at a call depth above
+   [d].  [depth_] is the register [call_enter] increments around the callee's
+   body, so [cap d w] lets every node of the entry template and of callees up to
+   nesting [d] through and answers [Err e_capped] at the entry of the (d+1)-th
+   nested callee.  Fuel exhaustion stays [OutOfFuel]; the two causes of "no
+   answer" are thereby told apart.  Proofs/SafetyDepth.v shows that the capped
+   walker either reports the cap or IS the walker (same outcome, same state). *)
+
+Definition e_capped := Eval vm_compute in b "call depth cap".
+
+Definition cap (d : nat) (w : node -> M value) (n : node) : M value :=
+  fun st => if Nat.leb (depth_ st) d then w n st else (Err e_capped, st).
+
+Fixpoint walk_cap (cf : cfg) (d : nat) (fuel : nat) (n : node) {struct fuel} : M value :=
+  match fuel with
+  | O => lift OutOfFuel
+  | S f => walk_body cf (cap d (walk_cap cf d f)) n
+  end.
+
+(* ------------------------------------------------------------------ *)
+(* 5. Functions and print directives SUPPLIED BY THE USER (entries added to
+   soyhtml.Funcs / soyhtml.PrintDirectives) and the recover wrappers around
+   them: exec.go evalFunc (defer recover -> s.errorf) and evalPrint (the
+   func(){ defer recover -> s.errorf; result = directive.Apply(..) }() block).
+   The user's Go code is a parameter; what it can do is spelled out:
+   return a value (possibly the nil interface), panic, or not return at all
+   (spin, block, runtime.Goexit, os.Exit) -- the last is what no wrapper can
+   help with and is carried as [Diverge].  s.errorf panics with a soy error,
+   which Renderer.Execute's errRecover turns into the returned error: in the
+   model an [Err].  Values are the model's [value]s: a user-defined
+   implementation of data.Value is outside the model (its methods run wherever
+   the walker calls Truthy/String/Equals, under Execute's errRecover only). *)
+From Soy Require Import Model.Escape Model.Directives Model.Print.
+
+Inductive user_result :=
+| UReturn (v : option value)      (* None = a nil data.Value *)
+| UPanic (m : bstr)               (* panic(x), also a run-time error inside the user's code *)
+| UNoReturn.
+
+Definition e_userpanic := Eval vm_compute in b "panic in ".
+Definition e_nilresult := Eval vm_compute in b "nil value".
+
+(* evalFunc: r := fn.Apply(args); if r == nil { return data.Null{} }; the deferred recover
+   re-panics through s.errorf *)
+Definition recover_func (r : user_result) : outcome value :=
+  match r with
+  | UReturn (Some v) => Ok v
+  | UReturn None => Ok VNull
+  | UPanic m => Err (e_userpanic ++ m)
+  | UNoReturn => Diverge
+  end.
+
+(* evalPrint: result = directive.Apply(result, args) inside the wrapper.  A nil result is not
+   checked: the next use (the next directive's value.String(), or result.String() after the loop)
+   dereferences it -- inside the next wrapper, or under Execute's errRecover: an error either way *)
+Definition recover_directive (r : user_result) : outcome value :=
+  match r with
+  | UReturn (Some v) => Ok v
+  | UReturn None => Err e_nilresult
+  | UPanic m => Err (e_userpanic ++ m)
+  | UNoReturn => Diverge
+  end.
+
+Record user_func := { uf_arities : list N; uf_apply : list value -> user_result }.
+
+Inductive dir_impl :=
+| DBuiltin (fn : bstr) (nilapply : bool)                     (* an entry of the regenerated table *)
+| DUser (apply : value -> list value -> user_result).
+Record dir_entry := { de_arities : list N; de_cancel : bool; de_impl : dir_impl }.
+
+Section UserCode.
+Variable cf : cfg.
+Variable ufuncs : bstr -> option user_func.     (* what the caller added to soyhtml.Funcs (may shadow a builtin) *)
+Variable dir_table : bstr -> option dir_entry.  (* soyhtml.PrintDirectives with the caller's additions *)
+
+(* evalFunc on a user entry: arity check, arguments, Apply under the wrapper *)
+Definition user_call (w : node -> M value) (uf : user_func) (args : list node) : M value :=
+  if negb (mem (N.of_nat (length args)) (uf_arities uf)) then fail e_arity
+  else vs <-- eval_list w args ;;; lift (recover_func (uf_apply uf vs)).
+
+Definition is_loop_func (name : bstr) : bool :=
+  Interp.fn_is name n_index || Interp.fn_is name n_isFirst || Interp.fn_is name n_isLast.
+
+(* one unfolding of state.walk with the user's functions: loopFuncs are looked up first, then Funcs *)
+Definition walk_body_user (w : node -> M value) (n : node) : M value :=
+  match n with
+  | NFunc _ name args =>
+      if is_loop_func name then walk_body cf w n
+      else match ufuncs name with
+           | Some uf => _ <-- modify (fun st => set_cur st (pos_of n)) ;;; user_call w uf args
+           | None => walk_body cf w n
+           end
+  | _ => walk_body cf w n
+  end.
+
+Fixpoint walk_user (fuel : nat) (n : node) {struct fuel} : M value :=
+  match fuel with
+  | O => lift OutOfFuel
+  | S f => walk_body_user (walk_user f) n
+  end.
+
+(* evalPrint's directive loop on VALUES (a user directive receives and returns a data.Value; the
+   builtin ones work on value.String() and return a data.String) *)
+Fixpoint apply_dirs_user (dirs : list (bstr * list value)) (v : value) (esc : bool) : outcome (value * bool) :=
+  match dirs with
+  | [] => Ok (v, esc)
+  | (name, args) :: rest =>
+      match dir_table name with
+      | None => Err e_nodirective
+      | Some de =>
+          if negb (check_num_args (de_arities de) (length args)) then Err e_arity
+          else
+            v' <- match de_impl de with
+                  | DBuiltin fn nilapply =>
+                      if nilapply then Err e_nilapply
+                      else s <- value_string v ;; s' <- apply_fn fn (map darg_of args) s ;; Ok (VStr s')
+                  | DUser ap => recover_directive (ap v args)
+                  end ;;
+            apply_dirs_user rest v' (esc && negb (de_cancel de))
+      end
+  end.
+
+(* the Write calls of evalPrint after the loop: result.String(), escaped or not *)
+Definition print_writes_user (mode : N) (dirs : list (bstr * list value)) (v : value) : outcome (list bstr) :=
+  '(v', esc) <- apply_dirs_user dirs v (negb (mode =? 2)) ;;
+  s <- value_string v' ;;
+  Ok (if esc then esc_writes [] s else [s]).
+End UserCode.
